@@ -364,6 +364,15 @@ func (vfs *OrefaFS) Link(oldname, newname string) error {
 		return &os.LinkError{Op: op, Old: oldname, New: newname, Err: vfs.err.NotADirectory}
 	}
 
+	if nChildOk {
+		err := vfs.err.FileExists
+		if vfs.OSType() == avfs.OsWindows {
+			err = avfs.ErrWinAlreadyExists
+		}
+
+		return &os.LinkError{Op: op, Old: oldname, New: newname, Err: err}
+	}
+
 	oChild.mu.Lock()
 	defer oChild.mu.Unlock()
 
@@ -378,15 +387,6 @@ func (vfs *OrefaFS) Link(oldname, newname string) error {
 
 	nParent.mu.Lock()
 	defer nParent.mu.Unlock()
-
-	if nChildOk {
-		err := vfs.err.FileExists
-		if vfs.OSType() == avfs.OsWindows {
-			err = avfs.ErrWinAlreadyExists
-		}
-
-		return &os.LinkError{Op: op, Old: oldname, New: newname, Err: err}
-	}
 
 	vfs.mu.Lock()
 
